@@ -329,9 +329,9 @@ func runC07(c *Ctx, r *Report, tier string) {
 	}
 	// IgnoreUnknown re-queue
 	nRq := 0
-	for _, in := range c.instrs(pa, c.isCallTo("(*parseState).addArgs")) {
-		ci := in.(ssa.CallInstruction)
-		if !argsHoldPop(c, ci) {
+	for _, as := range c.addArgsSites(pa) {
+		in := as.Site
+		if as.Kind != "pop" {
 			continue
 		}
 		nRq++
